@@ -328,34 +328,38 @@ def sigD6 (o : Obs) (ob : Obl) : Bool :=
   (ob.t != o.e.key ||
    (o.s.absorbed.filter fun M2 => M2 != o.e.key && o.s.inp.contains M2).any fun M2 => !ob.m.absorbing.contains M2)
 
-/-- signature of known finding D7: the step fires a mapping whose output ends in a modifier but contains
-a non-modifier key (it is treated as a modifier-remapping and skips `release_absorbed_keys`) -/
+/-- signature of known finding D7 (FIXED: `add_new_mapping` now tests `produces_action_key`; the monitor no
+longer consults this signature, the definition is kept for its other users): the step fires a mapping whose
+output ends in a modifier but contains a non-modifier key (before the fix it was treated as a
+modifier-remapping and skipped `release_absorbed_keys`) -/
 def sigD7 (o : Obs) : Bool :=
   match o.fired with
   | some fm => !isActionMapping fm && fm.to.any isActionKey
   | none => false
 
-/-- H1: a mapping that is not key-producing (output empty or ending in a modifier) outputs modifiers only -/
+/-- H1: a mapping that is not key-producing (output empty or ending in a modifier) outputs modifiers only
+(no longer a hypothesis of C08 since the fix of D7; still reported by the driver request `H12`) -/
 def layoutH1 (L : Layout) : Bool := L.all fun m => isActionMapping m || m.to.all fun y => !isActionKey y
 
 /-- H2: every mapping with a non-empty absorbing list is key-producing -/
 def layoutH2 (L : Layout) : Bool := L.all fun m => m.absorbing.isEmpty || isActionMapping m
 
 /-- C08 over one observed transition with the pending obligations; returns the violation tags.
-The known-finding signatures D6 / D7 are only looked at for layouts outside H1 ∧ H2: inside, C08 is a
-theorem of the model (`C08_partial`), so any violation there is a new one. -/
+The known-finding signature D6 is only looked at for layouts outside H2: inside, C08 is a theorem of the
+model (`C08_partial'`), so any violation there is a new one.  (Since the fix of D7 the scope of the theorem
+is H2 alone, and the D7 signature is no longer consulted.) -/
 def monC08 (o : Obs) (obls : List Obl) : List String :=
   match o.e with
   | Event.released _ => []
   | Event.pressed k =>
     if !o.accepted then []
     else
-      let outside := !(layoutH1 o.L && layoutH2 o.L)
+      let outside := !(layoutH2 o.L)
       (obls.filter fun ob => ob.M != k).flatMap fun ob =>
         if ob.t != k then
           (if c08i o ob then [] else [if outside && sigD6 o ob then "C08:D6" else "C08:i"]) ++
           (if c08ii o ob then [] else
-            [if outside && sigD6 o ob then "C08:D6" else if outside && sigD7 o then "C08:D7" else "C08:ii"])
+            [if outside && sigD6 o ob then "C08:D6" else "C08:ii"])
         else if ob.fresh && sameSet o.P' ob.held then
           (if c08iii o ob then [] else [if outside && sigD6 o ob then "C08:D6" else "C08:iii"])
         else []
